@@ -295,6 +295,31 @@ func modeC01(e *Env) {
 		RunStreamScenario(e.Rec, &StreamScenario{ID: id, Fam: "c01", Log: l, Start: l.Boundaries()[0], ServerID: 4242,
 			Attempts: []AttemptPlan{defaultAttempt()}, Note: "many-tables"})
 	}
+	// rows events with many rows (a multi-row statement is split over events of about 8 KiB: tens to hundreds of rows each):
+	// the images of every row, in order, for write, update and delete
+	for v, nrows := range []int{11, 17, 33, 130} {
+		if !e.Thorough() && (v+int(e.Seed))%2 == 1 {
+			continue
+		}
+		cfg := cfgs[(v*3+int(e.Seed))%len(cfgs)]
+		l := &Log{Cfg: cfg}
+		f := &LogFile{Name: "mysql-bin.000001"}
+		l.Files = []*LogFile{f}
+		g := gp
+		g.SimpleCols, g.MaxCols, g.MaxRows = true, 3, 1
+		t := genTable(e.R, 77, g)
+		u := &Unit{U: "txxid", Evs: []*Ev{{K: "query", TS: 1600000000, Cat: "begin", DB: "d", SQL: "BEGIN"}, {K: "tablemap", TS: 1600000000, Tbl: t}}}
+		for _, kind := range []string{"update", "write", "delete"} {
+			g.ExactRows = nrows
+			u.Evs = append(u.Evs, genRowsEv(e.R, kind, t, g, 1600000000))
+		}
+		u.Evs = append(u.Evs, &Ev{K: "xid", TS: 1600000000})
+		f.Units = append(f.Units, u)
+		l.Layout()
+		id++
+		RunStreamScenario(e.Rec, &StreamScenario{ID: id, Fam: "c01", Log: l, Start: l.Boundaries()[0], ServerID: 4242,
+			Attempts: []AttemptPlan{defaultAttempt()}, Note: "many-rows"})
+	}
 	// (b) random wide histories, every configuration, random valid start positions
 	n := e.N(36, 600)
 	for i := 0; i < n; i++ {
@@ -925,6 +950,12 @@ func modeC05(e *Env) {
 						atts[k].Deadline = true // the caller's context may carry a (far) deadline
 					}
 				}
+				if id%5 == 2 {
+					for k := range atts {
+						atts[k].Expire = true // wherever the plan cancels, the context ends by its deadline instead
+						atts[k].HookTrace = false // (MC_Conn models cancellation; what Error() says after a passed deadline is not in it)
+					}
+				}
 				if id%2 == 1 {
 					// half of the scenarios look for goroutines left behind before Error() is called for the first time
 					for k := range atts {
@@ -1248,6 +1279,19 @@ func modeC15b(e *Env) {
 			}
 			u.Evs = append(u.Evs, &Ev{K: "xid", TS: ts})
 			f.Units = append(f.Units, u)
+		}
+		if i%4 == 1 {
+			// a table map stays valid until its id is announced again: rows for ids announced earlier - in an earlier statement of
+			// the transaction, and in an earlier transaction - that are not announced again before them
+			D := genTable(e.R, 21, gp)
+			E := genTable(e.R, 22, gp)
+			u := &Unit{U: "txxid"}
+			u.Evs = append(u.Evs, &Ev{K: "query", TS: ts, Cat: "begin", DB: "d", SQL: "BEGIN"}, &Ev{K: "tablemap", TS: ts, Tbl: D}, &Ev{K: "tablemap", TS: ts, Tbl: E},
+				genRowsEv(e.R, "write", D, gp, ts), genRowsEv(e.R, pickS(e.R, "write", "update", "delete"), E, gp, ts), genRowsEv(e.R, "update", D, gp, ts), &Ev{K: "xid", TS: ts})
+			u2 := &Unit{U: "txxid"}
+			u2.Evs = append(u2.Evs, &Ev{K: "query", TS: ts, Cat: "begin", DB: "d", SQL: "BEGIN"},
+				genRowsEv(e.R, "delete", E, gp, ts), genRowsEv(e.R, "write", D, gp, ts), &Ev{K: "xid", TS: ts})
+			f.Units = append(f.Units, u, u2)
 		}
 		l.Layout()
 		atts := []AttemptPlan{defaultAttempt()}
